@@ -22,6 +22,9 @@ class AnalysisBroken(Exception):
     """the check cannot give a verdict (vanished anchor, floor not met, unsupported construct)"""
 
 
+CURRENT = [None]  # the Check being evaluated (run_main reports a definite exception of repository code through it)
+
+
 class Check:
     def __init__(self, prop, level, tier="quick", only_key=None, repo_root=None):
         self.prop = prop
@@ -29,6 +32,7 @@ class Check:
         self.tier = tier
         self.only_key = only_key
         self.t0 = time.time()
+        CURRENT[0] = self
         self.repo = Repo(repo_root)
         self.instances = 0
         self.by_rule = {}
@@ -96,7 +100,8 @@ class Check:
 
     def floor(self, name, found, expected_min):
         self.floors[name] = {"found": found, "expected_min": expected_min}
-        if found < expected_min:
+        if found < expected_min and not self.violations:
+            # (with violations already recorded the shortfall is explained by them: rows that raised are not counted)
             raise AnalysisBroken(f"floor '{name}': found {found} < expected minimum {expected_min} (anchor vanished or enumeration broken)")
 
     def sample(self, s):
@@ -304,6 +309,28 @@ def run_main(prop_module, argv):
     except AnalysisBroken as e:
         print(f"ANALYSIS-ERROR property={prop_module.PROP}: {e}")
         return 2
+    except (RepoRaise, ShapeError) as e:
+        # the interpreted repository code itself raises (an explicit raise, a call that does not fit the callee's
+        # signature, an out-of-range index, arrays that cannot be combined, a division by an exact zero) in a
+        # configuration the property quantifies over and outside every rule that expects a rejection: definite
+        ck = CURRENT[0]
+        if ck is None:
+            print(f"ANALYSIS-ERROR property={prop_module.PROP}: {type(e).__name__}: {e}")
+            return 2
+        if isinstance(e, RepoRaise):
+            at = f"{e.file}:{getattr(e.node, 'lineno', '?')}"
+            what = f"{e.exc_name}: {e.message}" if e.message else e.exc_name
+        else:
+            lc = getattr(e, "_loc", None)
+            at = f"{lc[0]}:{lc[1]}" if lc else "?"
+            what = f"shape error: {e}"
+        ck.rule("no-raise", "outside the rules that expect a rejection, the interpreted code raises nothing in the configurations the property quantifies over")
+        ck.fail("no-raise", f"{at}#{what[:80]}", at, f"the code raises in a configuration the property covers: {what[:300]}")
+        return ck.finish(
+            explanation="ABORTED: the interpreted repository code raised before the rules of this check could be evaluated; the raise itself is reported. " + str(e)[:300],
+            rule_text="abstract interpretation reached a definite exception in repository code",
+            exhaustive=False,
+        )
     except (AnalysisError, Unsupported, ShapeError, alg.AlgError, UndecidableBranch, RepoRaise) as e:
         print(f"ANALYSIS-ERROR property={prop_module.PROP}: {type(e).__name__}: {e}")
         if os.environ.get("VF_DEBUG"):
